@@ -11,3 +11,18 @@ package processor
 //@   ensures  [formula] q == 2*n/3 + 1
 //@   nopanic
 //@   replay processor_CalculateQuorum.go.tmpl
+
+// The same threshold in the contracts: sol_quorum / ral_quorum are extracted on every
+// run from Messages.sol:quorum and governance.ral:parseAndVerifyVAA by /verif/specs/xlang.
+//@ lemma quorum_matches_contracts(n int)
+//@   props C07
+//@   requires 0 <= n
+//@   ensures [sol] sol_quorum(n) == 2*n/3 + 1
+//@   ensures [ral] ral_quorum(n) == 2*n/3 + 1
+
+//@ lemma quorum_bft(n int, q int)
+//@   props C07
+//@   requires n >= 1 && q == 2*n/3 + 1
+//@   ensures [exceeds-two-thirds] 3*q > 2*n
+//@   ensures [at-most-n] q <= n
+//@   ensures [intersection] 3*(2*q - n) > n
